@@ -58,11 +58,12 @@ Proof. vm_compute. reflexivity. Qed.
 From V Require Import C20.PluginSpec C20.Plugin.
 Definition ex_build : list bact :=
   [AStartBegin 1%nat; AStartBegin 0%nat; AStartEnd 0%nat; AStartEnd 1%nat; ABarrier;
+   AInjectResolve; AInjectVisit 7%nat; ALoad 7%nat;
    AVisit 0%nat; AResolve; ALoad 0%nat; AVisit 1%nat; AVisit 2%nat; AVisit 1%nat; ALoad 2%nat; AResolve; ALoad 1%nat; AVisit 0%nat;
    AWrite; AEndBegin; AEndEnd false; AEndBegin; AEndEnd true].
 Example ex_build_trace :
   option_map snd (brun 2 3 bst0 ex_build) =
-  Some [PSB 1; PSB 0; PSE 0; PSE 1; PRes; PLoad 0; PLoad 2; PRes; PLoad 1; PEB 0 true; PEE 0 false; PEB 1 true; PEE 1 true].
+  Some [PSB 1; PSB 0; PSE 0; PSE 1; PRes; PLoad 7; PRes; PLoad 0; PLoad 2; PRes; PLoad 1; PEB 0 true; PEE 0 false; PEB 1 true; PEE 1 true].
 Proof. vm_compute. reflexivity. Qed.
 Example ex_build_ok : build_trace_ok 2 3 [PSB 1; PSB 0; PSE 0; PSE 1; PRes; PLoad 0; PLoad 2; PRes; PLoad 1; PEB 0 true; PEE 0 false; PEB 1 true; PEE 1 true] = true.
 Proof. vm_compute. reflexivity. Qed.
@@ -72,4 +73,11 @@ Proof. vm_compute. reflexivity. Qed.
 Example ex_build_bad_twice : build_trace_ok 1 1 [PSB 0; PSE 0; PLoad 3; PLoad 3] = false.
 Proof. vm_compute. reflexivity. Qed.
 Example ex_build_bad_onend : build_trace_ok 1 2 [PSB 0; PSE 0; PEB 0 true; PEE 0 true; PEB 1 true] = false.
+Proof. vm_compute. reflexivity. Qed.
+(* the inject phase cannot run before the on-start barrier in the model ... *)
+Example ex_inject_needs_barrier :
+  brun 1 1 bst0 [AStartBegin 0%nat; AInjectResolve] = None.
+Proof. vm_compute. reflexivity. Qed.
+(* ... and a trace where it does (the seeded change to ScanBundle) is rejected *)
+Example ex_build_bad_inject : build_trace_ok 1 1 [PSB 0; PRes; PLoad 0; PSE 0] = false.
 Proof. vm_compute. reflexivity. Qed.
